@@ -171,6 +171,10 @@ Examples:
 			recoveredResults, recoveryErr := searchRecovery.RecoverFromSearchFailure(query, nil, db)
 			if recoveryErr == nil && len(recoveredResults) > 0 {
 				results = recoveredResults
+				// the recovery strategies scan the whole database: the limit applies to them too
+				if len(results) > cfg.MaxResults {
+					results = results[:cfg.MaxResults]
+				}
 			}
 		}
 
